@@ -148,6 +148,9 @@ def run(ctx):
         allv += vlib.trace_viols(r)
     if stats.get("traces", 0) != ncases + nticks:
         raise vlib.Inconclusive("trace validation evaluated %d executions, harness recorded %d" % (stats.get("traces", 0), ncases + nticks))
+    if stats.get("closes_unsteered") or stats.get("commits_unsteered"):
+        ctx.say("C06: unsteered (not judged): %d Close, %d Commit calls saw client-side failures the coordinator did not script"
+                % (stats.get("closes_unsteered", 0), stats.get("commits_unsteered", 0)))
     harness_bad = [v for v in allv if v["clause"] not in CLAUSES]
     if harness_bad:
         raise vlib.Inconclusive("a panic of the code under test (C12's clause, not a C06 verdict) or a simulated coordinator "
@@ -192,10 +195,12 @@ def run(ctx):
                        "sequential / commit-window machines plus seeded simulations%s executed on the real offsetManager; TLC evaluated "
                        "the clauses on %d recorded executions (%d marks, %d of them inside a commit window of which %d had to be and were "
                        "re-sent by the next commit; %d commit requests, %d not fully accepted; %d Close calls with the accepting premise, %d Close calls that had to retry after a "
-                       "partial refusal and stored everything, %d that really exhausted Retry.Max+1 attempts for a partition)"
+                       "partial refusal and stored everything, %d that really exhausted Retry.Max+1 attempts for a partition; %d errors delivered on "
+                       "Errors() channels; unsteered (client-side failure the coordinator did not see, no verdict): %d Close, %d Commit)"
                        % (" and the free-running ticker family" if thorough else "", stats["traces"], stats["marks"], stats["flight_marks"],
                           stats["flight_recommitted"], stats["requests"], stats["faulty_requests"], stats["closes_premise"],
-                          stats["closes_retried_partial_refusal"], stats["closes_exhausted"]),
+                          stats["closes_retried_partial_refusal"], stats["closes_exhausted"], stats["errors_delivered"],
+                          stats["closes_unsteered"], stats["commits_unsteered"]),
     }
     return vlib.finish(ctx, "model_checking", cov, viols,
                        ["one committer at a time (manual Commit calls are sequential; the ticker is the only committer in the ticker family)",
@@ -203,6 +208,10 @@ def run(ctx):
                         "racing ticker scenarios where only the safety clauses apply)",
                         "a pending position that differs from the stored one must be carried by the next commit request "
                         "(reading of 'sent by a later commit')",
+                        "Close / Commit verdicts about unsent or lost marks are given only when every failed flush is one the simulated "
+                        "coordinator saw: all errors delivered on the Errors() channels are recorded, and a call during which a lost partition "
+                        "received more errors than the coordinator's answers explain (lookup, dial or connection failure on the client side) is "
+                        "counted as unsteered and not judged",
                         "the coordinator is simulated: MockBroker transport, own offset store, answers scripted by the TLC behaviour",
                         "model bounds: 2 partitions, offsets 0..2, 2 metadata values, 3 calls, <=2 commits + final attempts, 1 fault (exhaustive); "
                         "3 partitions, offsets 0..4, 8-10 calls, 4 commits, 5 faults (simulation)"],
